@@ -13,18 +13,20 @@ pub fn spec(tier: Tier) -> RunSpec {
 x {no Origin, Origin, Origin + Access-Control-Request-Method/-Headers} x {no Range, a valid Range} x both entry points (legacy restricted to its domain: plain files). \
 Oracle: HEAD = GET's status and header multiset modulo the timestamp value (hence the same Content-Length, Content-Type, Content-Range), empty body; OPTIONS = 2xx, empty body and, when the request carries Origin, \
 the preflight grants M-CORS predicts for the active (default allow-all) configuration: Allow-Origin = Origin, Allow-Credentials true, Allow-Methods / Allow-Headers echo the requested ones. \
-Non-trivial = path served through the static-file controller (not '/'); distinct by (tree, path, method, header variant, entry); counted per request triple.",
+A quarter of the trees are served by the real release binary over loopback (class served-by-the-real-binary). Non-trivial = path served through the static-file controller (not '/'); distinct by (tree, path, method, header variant, entry); counted per request triple.",
         &["the form demo endpoints are not pages and stay outside this check", "CORS grants are judged for the default configuration here; C11 varies the configuration"],
         if tier == Tier::Quick { 900 } else { 14400 },
     )
 }
 
 #[derive(Clone, Debug, Serialize, Deserialize)]
-pub struct Case { pub tree: TreeSpec }
+pub struct Case { pub tree: TreeSpec,
+    /// production-entry requests of this tree go to the real binary
+    #[serde(default)] pub binary: bool }
 
 fn send(method: &str, path: &str, extra: &str, entry: Entry) -> (Vec<u8>, Result<Result<(), String>, (String, String)>) {
     let req = format!("{} {} HTTP/1.1\r\nHost: localhost\r\n{}\r\n", method, path, extra);
-    let o = inproc::serve(req.as_bytes(), Transport::default(), 10000, AppKind::Real, entry);
+    let o = inproc::serve_routed(req.as_bytes(), true, entry); // through the binary whenever check_tree has started one
     (o.out, o.result)
 }
 
@@ -36,6 +38,7 @@ fn multiset(r: &mhttp::Resp) -> Vec<(String, String)> {
 pub fn check_tree(ctx: &Ctx, c: &Case, count: bool) -> Verdict {
     let tree = match Tree::materialise(&c.tree, &crate::fw::scratch_base()) { Ok(t) => t, Err(e) => return Verdict::fail("tree-materialisation-failed", e.to_string()) };
     if std::env::set_current_dir(&tree.root).is_err() { return Verdict::fail("chdir-failed", String::new()); }
+    if c.binary { if let Err(e) = inproc::binary_start(&tree.root) { ctx.inconclusive(&format!("real binary did not start: {}", e)); } }
     let mut paths: Vec<String> = vec!["/".into(), "/style.css".into(), "/script.js".into(), "/favicon.svg".into()];
     for f in &tree.files { paths.push(f.url.clone()); if let Some(s) = f.url.strip_suffix(".html") { if !s.ends_with('/') { paths.push(s.to_string()); } } }
     for d in &tree.dirs { if d.url != "/" && d.has_index { paths.push(d.url.clone()); paths.push(format!("{}/", d.url)); } }
@@ -60,6 +63,7 @@ pub fn check_tree(ctx: &Ctx, c: &Case, count: bool) -> Verdict {
                 let (h_out, h_res) = send("HEAD", path, extra, entry);
                 let (o_out, o_res) = send("OPTIONS", path, extra, entry);
                 evals += 3;
+                if c.binary && entry == Entry::Process { *classes.entry("served-by-the-real-binary").or_insert(0) += 3; }
                 let tag = format!("{} [{}] entry {:?}", path, vname, entry);
                 for (m, r) in [("GET", &g_res), ("HEAD", &h_res), ("OPTIONS", &o_res)] {
                     if let Err((msg, loc)) = r { problems.push((format!("panic:{}:{}", super::common::panic_module(loc), msg), format!("{} {} panicked at {}", m, tag, loc))); break 'outer; }
@@ -103,6 +107,8 @@ pub fn check_tree(ctx: &Ctx, c: &Case, count: bool) -> Verdict {
         for (k, v) in classes { *r.classes.entry(k.to_string()).or_insert(0) += v; }
         *r.sections.entry("requests".into()).or_insert(0) += evals;
     }
+    inproc::binary_stop();
+    for t in inproc::binary_trouble() { ctx.inconclusive(&format!("exchange with the real binary did not complete: {}", t)); }
     let _ = std::env::set_current_dir("/");
     ctx.judge(problems, false, vec![])
 }
@@ -110,7 +116,7 @@ pub fn check_tree(ctx: &Ctx, c: &Case, count: bool) -> Verdict {
 pub fn run(ctx: &Ctx) {
     crate::fw::inproc::init_env();
     *ctx.auto_sample.borrow_mut() = false;
-    let strat = { use proptest::prelude::*; tree_strategy(false).prop_map(|tree| Case { tree }) };
+    let strat = { use proptest::prelude::*; (tree_strategy(false), proptest::bool::weighted(0.25)).prop_map(|(tree, binary)| Case { tree, binary }) };
     ctx.prop("trees", ctx.share(ctx.scale(48, 2000)), strat, |c| check_tree(ctx, c, !*ctx.shrinking.borrow()));
 }
 
